@@ -116,6 +116,7 @@ fn run_upload(dir: &str, block: u32, password: usize, script: &[u8]) -> String {
 
 fn main() {
     silence_panics();
+    install_logger(); // every log line of the library is evaluated and formatted, as under RUST_LOG=trace
     start_watchdog(20);
     run_cases(|f, emit| match f[0] {
         // seq <sequence name> <input packet hex> <script hex>
